@@ -88,7 +88,7 @@ func (P *Program) closureObligations(prop string) []closureRes {
 		}
 		var keys []string
 		for k := range P.funcs {
-			if strings.HasPrefix(k, path+"::") {
+			if strings.HasPrefix(k, path+"::") || len(ps.Immutable) > 0 {
 				keys = append(keys, k)
 			}
 		}
@@ -120,8 +120,22 @@ func (P *Program) closureObligations(prop string) []closureRes {
 						if !ok {
 							continue
 						}
-						if !propTypes[strings.SplitN(desc, ".", 2)[0]] {
+						if !propTypes[strings.SplitN(desc, ".", 2)[0]] && fn.Pkg.Pkg.Path() == path {
 							continue
+						}
+						if fn.Pkg.Pkg.Path() != path {
+							// a writer in another package: only relevant for immutable fields
+							isImm := false
+							for tn, fs := range ps.Immutable {
+								for _, f := range fs {
+									if desc == tn+"."+f {
+										isImm = true
+									}
+								}
+							}
+							if !isImm {
+								continue
+							}
 						}
 						name := fmt.Sprintf("closure:%s:%s", desc, fn.RelString(fn.Pkg.Pkg))
 						if seen[name] {
@@ -165,7 +179,32 @@ func remainderHolds(P *Program, vc *VC, fnName string, r *Result, kf KnownFindin
 		return false
 	}
 	c2 := *con
-	c2.Requires = append(append([]*Clause(nil), con.Requires...), cl)
+	replaced := false
+	if r.Obl.Kind == "post" {
+		// a postcondition: weaken the clause itself (old() then refers to the same pre-state as in the clause)
+		c2.Ensures = nil
+		for i, en := range con.Ensures {
+			label := en.Label
+			if label == "" {
+				label = fmt.Sprintf("%d", i+1)
+			}
+			if !replaced && baseName(r.Obl.Name) == fmt.Sprintf("post:%s#%s", con.Name, label) {
+				w, err := parseClause("!("+kf.When+") ==> ("+en.Src+")", en.Line)
+				if err != nil {
+					fmt.Fprintf(os.Stderr, "known finding %s: %v\n", kf.Obligation, err)
+					return false
+				}
+				w.Label, w.Only = en.Label, en.Only
+				c2.Ensures = append(c2.Ensures, w)
+				replaced = true
+				continue
+			}
+			c2.Ensures = append(c2.Ensures, en)
+		}
+	}
+	if !replaced {
+		c2.Requires = append(append([]*Clause(nil), con.Requires...), cl)
+	}
 	ex, vc2 := buildVC(P, fn, &c2)
 	if len(ex.errs) > 0 {
 		fmt.Fprintf(os.Stderr, "known finding %s: %v\n", kf.Obligation, ex.errs)
